@@ -147,6 +147,10 @@ class Proxy:
         if req is not None:
             self.log.append(("request", stmt.id, list(req), list(self.ec.plan), set(self.ec.executed_ids)))
             self.rec.count("dynamic_requests")
+            if (len(stmt.id) + len(req)) % 2:
+                # the request comes together with an event (a yield that also asks for more work)
+                self.rec.count("dynamic_requests_with_event")
+                return ("event", stmt.id), list(req)
             return None, list(req)
         if stmt.id.endswith("7"):
             return ("event", stmt.id), None
